@@ -471,6 +471,78 @@ int main(int argc, char **argv) {
     add_history_space(R, "asan_expert_histories_depth3", ipow(kExpOps, 3), 3, run_expert_history, true, true);
     add_history_space(R, "asan_internal_encoder_histories_depth2", 4 * ipow(18, 2), 2, run_internal_history, true, true);
   }
+  // (a4) one DecoderBuffer object (and one Decoder) reused for streams of different bitstream versions / types / methods:
+  // carriers = the first stream of every (major, minor, geometry type, method) class of the corpus (legacy testdata files
+  // included) and its first half (a decode that fails half-way); every sequence of 2 (quick) or 3 (thorough) carriers.
+  {
+    auto carriers = std::make_shared<std::vector<Bytes>>();
+    auto names = std::make_shared<std::vector<std::string>>();
+    std::set<uint32_t> seen;
+    for (const Entry &e : g_corpus) {
+      if (e.bytes.size() < 12 || e.bytes.size() > 4096) continue;
+      const uint32_t key = (e.bytes[5] << 24) | (e.bytes[6] << 16) | (e.bytes[7] << 8) | e.bytes[8];
+      if (!seen.insert(key).second) continue;
+      carriers->push_back(e.bytes);
+      names->push_back(e.name);
+      carriers->push_back(Bytes(e.bytes.begin(), e.bytes.begin() + e.bytes.size() / 2));
+      names->push_back("first half of " + e.name);
+    }
+    const uint64_t n = carriers->size();
+    auto decode_in = [](DecoderBuffer &b, Decoder &d, const Bytes &s2) {
+      DecOut o;
+      b.Init(reinterpret_cast<const char *>(s2.data()), s2.size());
+      if (s2.size() > 7 && s2[7] == TRIANGULAR_MESH) {
+        auto r = d.DecodeMeshFromBuffer(&b);
+        o.ok = r.ok();
+        if (o.ok) o.digest = ordered_digest(*r.value(), r.value().get());
+      } else {
+        auto r = d.DecodePointCloudFromBuffer(&b);
+        o.ok = r.ok();
+        if (o.ok) o.digest = ordered_digest(*r.value(), nullptr);
+      }
+      o.remaining = b.remaining_size();
+      return o;
+    };
+    for (int depth : {2, 3}) {
+      mc::Space sp;
+      sp.name = std::string(asan ? "asan_" : "") + "decoder_buffer_reuse_depth" + std::to_string(depth);
+      sp.size = depth == 2 ? n * n : n * n * n;
+      sp.quick = depth == 2;
+      sp.thorough = true;
+      sp.run = [=](uint64_t idx, mc::Ctx &ctx) {
+        DecoderBuffer shared;
+        Decoder shared_dec;
+        std::string hist;
+        uint64_t k = idx;
+        for (int step = 0; step < depth; ++step) {
+          const size_t c = k % n;
+          k /= n;
+          hist += (step ? " ; " : "") + (*names)[c];
+          DecOut got = decode_in(shared, shared_dec, (*carriers)[c]);
+          DecoderBuffer fresh;
+          Decoder fresh_dec;
+          DecOut ref = decode_in(fresh, fresh_dec, (*carriers)[c]);
+          ctx.count("decodes_through_reused_buffer");
+          if (got.ok != ref.ok || got.digest != ref.digest || got.remaining != ref.remaining) {
+            ctx.fail("decoder-buffer-reuse:result-differs-from-fresh-buffer", "one DecoderBuffer + Decoder: " + hist);
+            return;
+          }
+          if (got.ok) ctx.state(got.digest);
+        }
+        ctx.nontrivial_unique();
+      };
+      sp.describe = [=](uint64_t idx) {
+        std::string hist;
+        for (int step = 0; step < depth; ++step) {
+          hist += (step ? " ; " : "") + (*names)[idx % n];
+          idx /= n;
+        }
+        return "one DecoderBuffer + Decoder reused: " + hist;
+      };
+      R.add(sp);
+    }
+    fprintf(stderr, "[C06] decoder buffer reuse: %zu carriers\n", (size_t)n);
+  }
   // (b)
   for (int fill : {0x00, 0xFF, 0xA5})
     for (int arena : asan ? std::vector<int>{0} : std::vector<int>{0, 1, 2}) g_answers.push_back({fill, arena});
